@@ -1,6 +1,7 @@
 (* C03 / C08: ONE inline link WITH A TITLE inside a sentence.  pre [w](dest "title") post - as Proofs/LinkSentence.v, the destination
-   now ended by the space, the title scanner (match_link_title: white space skipped, the double quote, the loop over the title up
-   to the closing quote) finding the title, the closing parenthesis after it; the Link token holds destination and title. *)
+   now ended by the space, the title scanner (match_link_title: white space skipped, the opening delimiter - a double quote, a single
+   quote or a parenthesis -, the loop over the title up to the closing delimiter) finding the title, the closing parenthesis after
+   it; the Link token holds destination, title and the delimiter the title was written with. *)
 From Coq Require Import ZArith List Bool Lia.
 From Mistletoe Require Import Base.Sx Base.PyStr Base.PyText Gen.GenTables Gen.GenRegex Gen.GenConfig Re.ReMatch
      Model.SpanTokenizer Model.Tree Model.Unescape Model.CoreTokens Model.Inline Model.Block Model.Build Model.Parser Model.HtmlRenderer
@@ -10,7 +11,7 @@ Local Open Scope Z_scope.
 
 Module Ttl.
 Section TitleS.
-  Variables (pre w dest title post : str) (fn : footnotes).
+  Variables (pre w dest title post : str) (q qc : Z) (fn : footnotes).
   Hypothesis Hpre : plain_text pre = true.
   Hypothesis Hw : plain_text w = true.
   Hypothesis Hpost : plain_text post = true.
@@ -18,10 +19,18 @@ Section TitleS.
   Hypothesis Hd : forallb dest_char dest = true.
   Hypothesis Hdne : dest <> [].
   Hypothesis Ht : plain_text title = true.
-  Hypothesis Htq : mem 34 title = false.
+  Hypothesis Htq : mem qc title = false.
+  (* the delimiter of the title and what closes it, as match_link_title pairs them *)
+  Hypothesis Hcl : (if q =? 34 then 34 else if q =? 39 then 39 else if q =? 40 then 41 else -1) = qc.
+  Hypothesis Hqws : is_ws q = false.
+  Hypothesis Hq41 : (q =? 41) = false.
+  Hypothesis Hqc1 : (qc =? -1) = false.
+  Hypothesis Hqc92 : (qc =? 92) = false.
+  Hypothesis Hqt : mem q triggers_r = false.
+  Hypothesis Hqct : mem qc triggers_r = false.
 
-  (* what stands between "(" and ")": the destination, a space, the title in double quotes *)
-  Let blob := dest ++ [32; 34] ++ title ++ [34].
+  (* what stands between "(" and ")": the destination, a space, the title between its delimiters *)
+  Let blob := dest ++ [32; q] ++ title ++ [qc].
 
   Let s := pre ++ [91] ++ w ++ [93; 40] ++ blob ++ [41] ++ post.
   Let a := slen pre.
@@ -105,15 +114,15 @@ Section TitleS.
   Proof. unfold new_delim. rewrite l_bracket_text. cbn [andb]. unfold LD. f_equal; lia. Qed.
 
   (* the text from the destination on *)
-  Lemma s_at_dest : s = (pre ++ [91] ++ w ++ [93; 40]) ++ dest ++ 32 :: (34 :: title ++ [34; 41] ++ post).
+  Lemma s_at_dest : s = (pre ++ [91] ++ w ++ [93; 40]) ++ dest ++ 32 :: (q :: title ++ [qc; 41] ++ post).
   Proof. unfold s, blob. rewrite <- !app_assoc. reflexivity. Qed.
-  Lemma s_at_dd : s = (pre ++ [91] ++ w ++ [93; 40] ++ dest) ++ 32 :: 34 :: (title ++ [34; 41] ++ post).
+  Lemma s_at_dd : s = (pre ++ [91] ++ w ++ [93; 40] ++ dest) ++ 32 :: q :: (title ++ [qc; 41] ++ post).
   Proof. unfold s, blob. rewrite <- !app_assoc. reflexivity. Qed.
   Lemma len_dd : slen (pre ++ [91] ++ w ++ [93; 40] ++ dest) = dd.
   Proof. unfold dd, off, b, a. rewrite !slen_app. unfold slen. cbn [length]. lia. Qed.
-  Lemma s_at_title : s = (pre ++ [91] ++ w ++ [93; 40] ++ dest ++ [32; 34]) ++ title ++ 34 :: (41 :: post).
+  Lemma s_at_title : s = (pre ++ [91] ++ w ++ [93; 40] ++ dest ++ [32; q]) ++ title ++ qc :: (41 :: post).
   Proof. unfold s, blob. rewrite <- !app_assoc. reflexivity. Qed.
-  Lemma len_title : slen (pre ++ [91] ++ w ++ [93; 40] ++ dest ++ [32; 34]) = dd + 1 + 1.
+  Lemma len_title : slen (pre ++ [91] ++ w ++ [93; 40] ++ dest ++ [32; q]) = dd + 1 + 1.
   Proof. unfold dd, off, b, a. rewrite !slen_app. unfold slen. cbn [length]. lia. Qed.
 
   Lemma dest_plain_run_ws : forall d i rest, forallb dest_char d = true -> dest_plain (d ++ 32 :: rest) i false 1 = Some (i + slen d).
@@ -128,24 +137,24 @@ Section TitleS.
       rewrite (IH (i + 1) rest Hd'). f_equal. unfold slen. cbn [length]. lia.
   Qed.
 
-  Lemma title_scan_run : forall (tl : str) i rest, mem 34 tl = false -> mem 92 tl = false -> title_scan (tl ++ 34 :: rest) i 34 false = Some (i + slen tl).
+  Lemma title_scan_run : forall (tl : str) i rest, mem qc tl = false -> mem 92 tl = false -> title_scan (tl ++ qc :: rest) i qc false = Some (i + slen tl).
   Proof.
     induction tl as [|c tl IH]; intros i rest H34 H92.
-    - cbn [app title_scan]. change (34 =? 92) with false. cbn [andb negb Z.eqb Pos.eqb]. unfold slen. cbn [length Z.of_nat]. f_equal. lia.
+    - cbn [app title_scan]. rewrite Hqc92, Z.eqb_refl. cbn [andb negb]. unfold slen. cbn [length Z.of_nat]. f_equal. lia.
     - unfold mem in H34, H92. cbn [existsb] in H34, H92. apply orb_false_iff in H34 as [A1 A2]. apply orb_false_iff in H92 as [B1 B2].
-      cbn [app title_scan]. rewrite (Z.eqb_sym c 92), B1, (Z.eqb_sym c 34), A1. cbn [andb].
+      cbn [app title_scan]. rewrite (Z.eqb_sym c 92), B1, (Z.eqb_sym c qc), A1. cbn [andb].
       rewrite (IH (i + 1) rest A2 B2). f_equal. unfold slen. cbn [length]. lia.
   Qed.
 
   Lemma l_dest_only : substr s off dd = dest.
   Proof.
-    pose proof (substr_mid (pre ++ [91] ++ w ++ [93; 40]) dest (32 :: (34 :: title ++ [34; 41] ++ post))) as M. rewrite len_off in M. fold dd in M.
+    pose proof (substr_mid (pre ++ [91] ++ w ++ [93; 40]) dest (32 :: (q :: title ++ [qc; 41] ++ post))) as M. rewrite len_off in M. fold dd in M.
     rewrite s_at_dest. exact M.
   Qed.
 
   Lemma l_title_text : substr s (dd + 1 + 1) (dd + 1 + 1 + slen title) = title.
   Proof.
-    pose proof (substr_mid (pre ++ [91] ++ w ++ [93; 40] ++ dest ++ [32; 34]) title (34 :: (41 :: post))) as M. rewrite len_title in M.
+    pose proof (substr_mid (pre ++ [91] ++ w ++ [93; 40] ++ dest ++ [32; q]) title (qc :: (41 :: post))) as M. rewrite len_title in M.
     rewrite s_at_title. exact M.
   Qed.
 
@@ -161,7 +170,7 @@ Section TitleS.
     assert (Ec : char_at s off = c).
     { rewrite s_at_dest, Ed. rewrite <- len_off. cbn [app]. apply char_at_mid. }
     rewrite Ec, H60.
-    assert (Edrop : drop off s = dest ++ 32 :: (34 :: title ++ [34; 41] ++ post)) by (rewrite s_at_dest at 1; rewrite <- len_off; apply drop_app_len).
+    assert (Edrop : drop off s = dest ++ 32 :: (q :: title ++ [qc; 41] ++ post)) by (rewrite s_at_dest at 1; rewrite <- len_off; apply drop_app_len).
     rewrite Edrop, (dest_plain_run_ws dest off _ Hd). fold dd. rewrite l_dest_only. reflexivity.
   Qed.
 
@@ -169,21 +178,21 @@ Section TitleS.
   Proof.
     unfold match_link_title.
     assert (Esh : shift_whitespace s dd = dd + 1).
-    { unfold shift_whitespace. rewrite s_at_dd at 1. rewrite <- len_dd at 1. rewrite drop_app_len. cbn [shift_ws_aux]. change (is_ws 32) with true. change (is_ws 34) with false. cbv iota. reflexivity. }
+    { unfold shift_whitespace. rewrite s_at_dd at 1. rewrite <- len_dd at 1. rewrite drop_app_len. cbn [shift_ws_aux]. change (is_ws 32) with true. rewrite Hqws. cbv iota. reflexivity. }
     rewrite Esh.
     assert (dd + 1 =? slen s = false) as -> by (apply Z.eqb_neq; rewrite l_len, l_dd; pose proof l_p0; unfold slen; lia).
-    assert (Eq : char_at s (dd + 1) = 34).
+    assert (Eq : char_at s (dd + 1) = q).
     { replace (dd + 1) with (slen (pre ++ [91] ++ w ++ [93; 40] ++ dest ++ [32])) by (rewrite <- len_dd, !slen_app; unfold slen; cbn [length]; lia).
-      replace s with ((pre ++ [91] ++ w ++ [93; 40] ++ dest ++ [32]) ++ 34 :: (title ++ [34; 41] ++ post)) by (unfold s, blob; rewrite <- !app_assoc; reflexivity).
+      replace s with ((pre ++ [91] ++ w ++ [93; 40] ++ dest ++ [32]) ++ q :: (title ++ [qc; 41] ++ post)) by (unfold s, blob; rewrite <- !app_assoc; reflexivity).
       apply char_at_mid. }
-    rewrite Eq. cbn [Z.eqb Pos.eqb]. cbv iota.
-    assert (Edrop : drop (dd + 1 + 1) s = title ++ 34 :: (41 :: post)) by (rewrite s_at_title at 1; rewrite <- len_title; apply drop_app_len).
+    rewrite Eq, Hq41, Hcl, Hqc1.
+    assert (Edrop : drop (dd + 1 + 1) s = title ++ qc :: (41 :: post)) by (rewrite s_at_title at 1; rewrite <- len_title; apply drop_app_len).
     rewrite Edrop, (title_scan_run title (dd + 1 + 1) _ Htq (plain_no 92 title eq_refl Ht)).
     rewrite l_title_text, l_dd. reflexivity.
   Qed.
 
   Definition the_ilink : mobj :=
-    link_mobj false a (de + 1) (a + 1, b, w) (off, dd, dest) (dd + 1, de, title) $"uri" None [34].
+    link_mobj false a (de + 1) (a + 1, b, w) (off, dd, dest) (dd + 1, de, title) $"uri" None [q].
 
   Lemma ilink_found : match_link_image s b LD fn = Some the_ilink.
   Proof.
@@ -198,9 +207,9 @@ Section TitleS.
     assert (Ec : char_at s off = c) by (rewrite s_at_dest, Ed; rewrite <- len_off; cbn [app]; apply char_at_mid).
     rewrite Ec, H60. rewrite andb_false_r.
     assert (dd + 1 <? de = true) as -> by (apply Z.ltb_lt; rewrite l_dd; unfold slen; lia).
-    assert (Eq : char_at s (dd + 1) = 34).
+    assert (Eq : char_at s (dd + 1) = q).
     { replace (dd + 1) with (slen (pre ++ [91] ++ w ++ [93; 40] ++ dest ++ [32])) by (rewrite <- len_dd, !slen_app; unfold slen; cbn [length]; lia).
-      replace s with ((pre ++ [91] ++ w ++ [93; 40] ++ dest ++ [32]) ++ 34 :: (title ++ [34; 41] ++ post)) by (unfold s, blob; rewrite <- !app_assoc; reflexivity).
+      replace s with ((pre ++ [91] ++ w ++ [93; 40] ++ dest ++ [32]) ++ q :: (title ++ [qc; 41] ++ post)) by (unfold s, blob; rewrite <- !app_assoc; reflexivity).
       apply char_at_mid. }
     rewrite Eq. reflexivity.
   Qed.
@@ -229,8 +238,9 @@ Section TitleS.
       { unfold mem, triggers_r, triggers in *. cbn [existsb] in *.
         repeat (apply orb_true_iff in Hc; destruct Hc as [Hc|Hc]); try discriminate; rewrite Hc; cbn [orb]; rewrite ?orb_true_r; reflexivity. }
       assert (C32 : (c =? 32) = false) by (destruct (c =? 32) eqn:E; [apply Z.eqb_eq in E; subst c; vm_compute in Hc; discriminate|reflexivity]).
-      assert (C34 : (c =? 34) = false) by (destruct (c =? 34) eqn:E; [apply Z.eqb_eq in E; subst c; vm_compute in Hc; discriminate|reflexivity]).
-      unfold blob, mem. rewrite !existsb_app. fold (mem c dest). fold (mem c title). rewrite (dest_no c dest Hc Hd), (plain_no c title Ht' Ht). cbn [existsb orb]. rewrite C32, C34. reflexivity. }
+      assert (C34 : (c =? q) = false) by (destruct (c =? q) eqn:E; [apply Z.eqb_eq in E; rewrite E, Hqt in Hc; discriminate|reflexivity]).
+      assert (C35 : (c =? qc) = false) by (destruct (c =? qc) eqn:E; [apply Z.eqb_eq in E; rewrite E, Hqct in Hc; discriminate|reflexivity]).
+      unfold blob, mem. rewrite !existsb_app. fold (mem c dest). fold (mem c title). rewrite (dest_no c dest Hc Hd), (plain_no c title Ht' Ht). cbn [existsb orb]. rewrite C32, C34, C35. reflexivity. }
     unfold s, mem. rewrite !existsb_app. fold (mem c pre). fold (mem c w). fold (mem c blob). fold (mem c post).
     rewrite (P pre Hpre), (P w Hw), (P post Hpost), PD. cbn [existsb orb].
     destruct C4 as (C1 & C2 & C3 & C5). apply Z.eqb_neq in C1, C2, C3, C5. rewrite C1, C2, C3, C5. reflexivity.
@@ -297,7 +307,7 @@ Section TitleS.
       (cbn [re_of fst snd] in F |- *; rewrite F; cbn [map app]; apply IH; exact Hts).
   Qed.
 
-  Definition ilink_tok : tok := Link (mkLink (escape_strip (strip dest)) (escape_strip title) $"uri" None [34]) [RawText w].
+  Definition ilink_tok : tok := Link (mkLink (escape_strip (strip dest)) (escape_strip title) $"uri" None [q]) [RawText w].
 
   Theorem tokenize_inner_ilink types : forallb kind_quiet_r (removelast types) = true ->
     filter (fun kd => match kd with SK_CoreTokens => true | _ => false end) (removelast types) = [SK_CoreTokens] ->
@@ -337,30 +347,41 @@ Section TitleS.
 End TitleS.
 End Ttl.
 
-Definition tlink_ok (pre w dest title post : str) : bool := ilink_ok pre w dest post && plain_text title && negb (mem 34 title).
-Definition tlink_of (w dest title : str) : tok := Link (mkLink dest title $"uri" None [34]) [RawText w].
+(* the three ways of writing a title: "...", '...', (...) *)
+Definition closer (q : Z) : Z := if q =? 34 then 34 else if q =? 39 then 39 else if q =? 40 then 41 else -1.
+Definition delim_ok (q : Z) : bool := (q =? 34) || (q =? 39) || (q =? 40).
 
-Theorem titled_link_in_sentence types fn pre w dest title post :
-  ref_spans types = true -> tlink_ok pre w dest title post = true ->
-  tokenize_inner types fn (pre ++ [91] ++ w ++ [93; 40] ++ dest ++ [32; 34] ++ title ++ [34; 41] ++ post) = raw_if pre ++ [tlink_of w dest title] ++ raw_if post.
+Definition tlink_ok (pre w dest : str) (q : Z) (title post : str) : bool :=
+  ilink_ok pre w dest post && plain_text title && delim_ok q && negb (mem q title) && negb (mem (closer q) title).
+Definition tlink_of (w dest : str) (q : Z) (title : str) : tok := Link (mkLink dest title $"uri" None [q]) [RawText w].
+
+Theorem titled_link_in_sentence types fn pre w dest q title post :
+  ref_spans types = true -> tlink_ok pre w dest q title post = true ->
+  tokenize_inner types fn (pre ++ [91] ++ w ++ [93; 40] ++ dest ++ [32; q] ++ title ++ [closer q; 41] ++ post) = raw_if pre ++ [tlink_of w dest q title] ++ raw_if post.
 Proof.
   intros Hs Ho. unfold ref_spans in Hs. apply andb_true_iff in Hs as [Hq Hc].
-  unfold tlink_ok in Ho. repeat rewrite andb_true_iff in Ho. destruct Ho as [[Hi Ht] Hq34]. apply negb_true_iff in Hq34.
+  unfold tlink_ok in Ho. repeat rewrite andb_true_iff in Ho. destruct Ho as [[[[Hi Ht] Hdl] _] Hq34]. apply negb_true_iff in Hq34.
   unfold ilink_ok in Hi. repeat rewrite andb_true_iff in Hi. destruct Hi as [[[[[H1 H2] H3] H4] H5] H6].
   assert (Hdne : dest <> []) by (destruct dest; [discriminate|discriminate]).
-  pose proof (Ttl.tokenize_inner_ilink pre w dest title post fn H1 H2 H3) as T.
   assert (Hwne : w <> []) by (destruct w; [discriminate|discriminate]).
-  specialize (T Hwne H5 Hdne Ht Hq34 types Hq).
   assert (Hc' : filter (fun kd => match kd with SK_CoreTokens => true | _ => false end) (removelast types) = [SK_CoreTokens]).
   { destruct (filter _ _) as [|[] [|? ?]]; try discriminate. reflexivity. }
-  specialize (T Hc').
-  replace (pre ++ [91] ++ w ++ [93; 40] ++ dest ++ [32; 34] ++ title ++ [34; 41] ++ post)
-    with (pre ++ [91] ++ w ++ [93; 40] ++ (dest ++ [32; 34] ++ title ++ [34]) ++ [41] ++ post) by (rewrite <- !app_assoc; reflexivity).
+  assert (Hqq : q = 34 \/ q = 39 \/ q = 40).
+  { unfold delim_ok in Hdl. repeat (apply orb_true_iff in Hdl; destruct Hdl as [Hdl|Hdl]); apply Z.eqb_eq in Hdl; tauto. }
+  assert (T : tokenize_inner types fn (pre ++ [91] ++ w ++ [93; 40] ++ (dest ++ [32; q] ++ title ++ [closer q]) ++ [41] ++ post) =
+              raw_if pre ++ [Ttl.ilink_tok w dest title q] ++ raw_if post).
+  { destruct Hqq as [->|[->| ->]];
+      [apply (Ttl.tokenize_inner_ilink pre w dest title post 34 34 fn H1 H2 H3 Hwne H5 Hdne Ht Hq34 eq_refl eq_refl eq_refl eq_refl eq_refl eq_refl eq_refl types Hq Hc')|apply (Ttl.tokenize_inner_ilink pre w dest title post 39 39 fn H1 H2 H3 Hwne H5 Hdne Ht Hq34 eq_refl eq_refl eq_refl eq_refl eq_refl eq_refl eq_refl types Hq Hc')|apply (Ttl.tokenize_inner_ilink pre w dest title post 40 41 fn H1 H2 H3 Hwne H5 Hdne Ht Hq34 eq_refl eq_refl eq_refl eq_refl eq_refl eq_refl eq_refl types Hq Hc')]. }
+  replace (pre ++ [91] ++ w ++ [93; 40] ++ dest ++ [32; q] ++ title ++ [closer q; 41] ++ post)
+    with (pre ++ [91] ++ w ++ [93; 40] ++ (dest ++ [32; q] ++ title ++ [closer q]) ++ [41] ++ post) by (rewrite <- !app_assoc; reflexivity).
   rewrite T. unfold Ttl.ilink_tok, tlink_of. rewrite (dest_clean dest H5 Hdne).
   rewrite (escape_strip_quiet title) by (apply plain_no; [reflexivity|exact Ht]). reflexivity.
 Qed.
 
 Example titled_instance :
-  (tlink_ok ($"see ") ($"the site") ($"http://ex.am/a?b=c") ($"Its title, here") ($", ok") = true) /\
-  (tlink_ok [] ($"x") ($"/y") ([34]) [] = false) /\ (tlink_ok [] ($"x") ($"/y") ($"a&b") [] = false).
+  (tlink_ok ($"see ") ($"the site") ($"http://ex.am/a?b=c") 34 ($"Its title, here") ($", ok") = true) /\
+  (tlink_ok ($"see ") ($"the site") ($"/s") 39 ($"Its ""title"", (here)") [] = true) /\
+  (tlink_ok [] ($"x") ($"/y") 40 ($"it's ""so""") ($".") = true) /\
+  (tlink_ok [] ($"x") ($"/y") 34 ([34]) [] = false) /\ (tlink_ok [] ($"x") ($"/y") 40 ($"a(b") [] = false) /\ (tlink_ok [] ($"x") ($"/y") 40 ($"a)b") [] = false) /\
+  (tlink_ok [] ($"x") ($"/y") 39 ($"it's") [] = false) /\ (tlink_ok [] ($"x") ($"/y") 60 ($"a") [] = false) /\ (tlink_ok [] ($"x") ($"/y") 34 ($"a&b") [] = false).
 Proof. vm_compute. repeat split; reflexivity. Qed.
